@@ -93,7 +93,7 @@ Print Assumptions C02_follow_dynamic_missing_root_refuted.
 (* Non-vacuity of C02_validate_iff: a graph whose static import is missing fails, and one
    where the only missing module is behind a dynamic import validates. *)
 Definition c02_dep (t : N) (target : spec) (dyn : bool) : dep :=
-  {| d_text := t; d_filelike := false; d_code := ROk target 0; d_type := RNone; d_dyn := dyn; d_deno_types := false |}.
+  {| d_text := t; d_filelike := false; d_code := ROk target 0; d_type := RNone; d_dyn := dyn; d_deno_types := false; d_attr := 0 |}.
 Definition c02_graph (dyn : bool) : graph :=
   {| g_kind := KAll; g_roots := [1];
      g_slots := [(1, SMod {| m_kind := MkJs; m_spec := 1; m_media := MTypeScript;
